@@ -911,12 +911,17 @@ class DATETIME(NUMERIC):
             return query.Every(fieldname, boost=boost)
 
         try:
+            # A fully specified date string comes back as a plain datetime
             if start is not None:
-                startdt = self._parse_datestring(start).floor()
+                startdt = self._parse_datestring(start)
+                if hasattr(startdt, "floor"):
+                    startdt = startdt.floor()
                 start = datetime_to_long(startdt)
 
             if end is not None:
-                enddt = self._parse_datestring(end).ceil()
+                enddt = self._parse_datestring(end)
+                if hasattr(enddt, "ceil"):
+                    enddt = enddt.ceil()
                 end = datetime_to_long(enddt)
         except (ValueError, OverflowError):
             e = sys.exc_info()[1]
